@@ -197,6 +197,7 @@ class _triples_frames:
     params = {"stream": OBJ(f"{SS}:TripleStream"), "data": OBJ(SINK)}
     variants = _variants("TripleStream", TRIPLE, SINK)
     yields = MSG("RdfStreamFrame")
+    shards = 6
     modifies = STMT_MOD
     # loop 0: `for graph in graphs` (a one-element tuple, unrolled); loop 1: the statements
     loops = {1: LoopSpec(invariant=_stmt_loop, after_each=_after_stmt, modifies=STMT_MOD[:5])}
@@ -212,6 +213,7 @@ class _quads_frames:
     params = {"stream": OBJ(f"{SS}:QuadStream"), "data": OBJ(f"{SINK}@quads")}
     variants = _variants("QuadStream", QUAD, f"{SINK}@quads")
     yields = MSG("RdfStreamFrame")
+    shards = 6
     modifies = STMT_MOD
     loops = {0: LoopSpec(invariant=_stmt_loop, after_each=_after_stmt, modifies=STMT_MOD[:5])}
 
@@ -244,6 +246,7 @@ class _graph:
     params = {"self": OBJ(f"{SS}:GraphStream"), "graph_id": ADTS("gterm"), "graph": OBJ(SINK)}
     variants = _graph_variants()
     yields = MSG("RdfStreamFrame")
+    shards = 8
     modifies = GRAPH_MOD
     loops = {0: LoopSpec(invariant=lambda e: {"tables-well-formed": wf_te(e.self.encoder)},
                          after_each=lambda e: ({"pending-rows-below-frame-size": flow_len(e.self.flow) < e.self.flow.frame_size}
@@ -305,6 +308,7 @@ class _graphs_frames:
     params = {"stream": OBJ(f"{SS}:GraphStream"), "data": OBJ(f"{SINK}@quads")}
     variants = _gvariants()
     yields = MSG("RdfStreamFrame")
+    shards = 6
     modifies = STMT_MOD
     loops = {0: LoopSpec(invariant=_stmt_loop, after_each=_after_stmt, modifies=STMT_MOD[:5])}
 
@@ -315,3 +319,69 @@ class _graphs_frames:
 
 inline(f"{GS}:GenericStatementSink.__init__")      # three assignments: an empty deque, an empty dict, the identifier
 inline(f"{GS}:GenericStatementSink.add")           # self._store.append(statement)
+
+
+# ------------------------------------------------------------------------------------------------- Stream.__init__
+from pyvc.contract import NEWOBJ  # noqa: E402
+from .options import valid_pair  # noqa: E402
+from .streams import CLASS_LOGICAL, PHYS_OF, SOPTS, expected_flow_class  # noqa: E402
+
+
+def _is_new(e: Any, v: Any) -> bool:
+    """the object was allocated during the call (it is shared with nothing that existed before)"""
+    return v._ref.id not in e._old_heap
+
+
+@contract(f"{SS}:Stream.__init__", serves=["C12", "C06", "C13", "C03"])
+class _stream_init:
+    """C12: everything a stream mutates later is created here, per stream - the repeated-terms list and (unless the caller
+    supplied one) the flow are new objects, and the caller's options object is not written to. C06/C13: the flow is the
+    supplied one or the inferred one, and the header types are (class physical type, the flow's logical type)."""
+    params = {"self": NEWOBJ(f"{SS}:TripleStream"), "encoder": OBJ(GENC), "options": OBJ(SOPTS)}
+    variants = [{"self": NEWOBJ(f"{SS}:TripleStream")}, {"self": NEWOBJ(f"{SS}:QuadStream")}, {"self": NEWOBJ(f"{SS}:GraphStream")}]
+    modifies = ["self"]
+
+    def requires(e):
+        o = e.options
+        return And(known_logical(o.logical_type), Implies(Not(is_none(o.flow)), known_logical(opt_val(o.flow).logical_type)))
+
+    def on_raise(e): return {"the-half-built-stream-is-discarded": True}
+
+    def _final_logical(e):
+        o = e.options
+        supplied = Not(is_none(o.flow))
+        inferred = z3.If(o.logical_type != 0, o.logical_type, _default_logical(e.self.cls.name, o.params.delimited))
+        return z3.If(supplied, opt_val(o.flow).logical_type, inferred)
+
+    def raises(e):
+        phys = PHYS_OF[e.self.cls.name]
+        return {"JellyAssertionError": Not(valid_pair(z3.IntVal(phys), _stream_init._final_logical(e)))}
+
+    def ensures(e):
+        from pyvc.values import Opt
+        S, o = e.self, e.options
+        supplied = Not(is_none(o.flow))
+        flow = S.flow.val if isinstance(S.flow, Opt) else S.flow
+        out = {
+            "same-encoder-and-options": And(S.encoder == e.encoder, S.options == e.options),
+            "not-yet-enrolled": Not(S.enrolled),
+            "no-remembered-terms": And(*[is_none(x) for x in S.repeated_terms.items]) if len(S.repeated_terms.items) == 4 else False,
+            "repeated-terms-list-is-per-stream": _is_new(e, S.repeated_terms),
+            "stream-types-object-is-per-stream": _is_new(e, S.stream_types),
+            "physical-type-of-the-class": S.stream_types.physical_type == PHYS_OF[S.cls.name],
+            "logical-type-of-the-flow": S.stream_types.logical_type == flow.logical_type,
+            "header-pair-is-valid": valid_pair(S.stream_types.physical_type, S.stream_types.logical_type),
+        }
+        if _is_new(e, flow):
+            exp = expected_flow_class(S.cls.name, o.logical_type, o.params.delimited)
+            out["a-flow-is-inferred-only-when-none-was-supplied"] = Not(supplied)
+            out["inferred-flow-class-as-specified"] = exp.get(flow.cls.name, False)
+            out["inferred-flow-starts-empty"] = flow_len(flow) == 0
+        else:
+            out["a-flow-that-is-not-new-is-the-supplied-one"] = And(supplied, flow == opt_val(o.flow))
+        return out
+
+
+def _default_logical(stream_cls: str, delimited: Any) -> Any:
+    from .streams import DEFAULT_FLOW
+    return z3.If(delimited, CLASS_LOGICAL[DEFAULT_FLOW[stream_cls]], 0)
